@@ -39,3 +39,43 @@ Section Loop.
         else Some (ss', O)
     end.
 End Loop.
+
+(* Second, more faithful version: the sockets share an environment [E] (device transmit budget,
+   neighbor cache, fragmenter, the interface's `now`) that every dispatch reads and updates, so a
+   socket's emit may be refused because of what another socket did.  A dispatch ends in one of three
+   ways, as `socket_egress` distinguishes them: the packet went out (RSent: the only case that sets
+   PollResult::SocketStateChanged), nothing went out (RSilent: nothing to send, neighbor missing,
+   fragmenter busy, egress not permitted), or the device had no transmit token (RExhausted: the `for`
+   loop over the sockets breaks).  Before every pass the interface itself may transmit (pending
+   fragments, router solicitations, multicast reports): [pre] changes only the environment. *)
+Inductive dres := RSent | RSilent | RExhausted.
+
+Section Loop2.
+  Variable E St : Type.
+  Variable dispatch : E -> St -> E * St * dres.
+  Variable pre : E -> E.
+
+  Fixpoint egress_pass2 (e : E) (ss : list St) : E * list St * bool :=
+    match ss with
+    | [] => (e, [], false)
+    | s :: rest =>
+        let '(e1, s1, r) := dispatch e s in
+        match r with
+        | RExhausted => (e1, s1 :: rest, false)
+        | RSent => let '(e2, rest', _) := egress_pass2 e1 rest in (e2, s1 :: rest', true)
+        | RSilent => let '(e2, rest', b) := egress_pass2 e1 rest in (e2, s1 :: rest', b)
+        end
+    end.
+
+  Fixpoint poll_loop2 (fuel : nat) (e : E) (ss : list St) : option (E * list St * nat) :=
+    match fuel with
+    | O => None
+    | S f =>
+        let '(e1, ss', b) := egress_pass2 (pre e) ss in
+        if b then match poll_loop2 f e1 ss' with
+                  | Some (e2, r, n) => Some (e2, r, S n)
+                  | None => None
+                  end
+        else Some (e1, ss', O)
+    end.
+End Loop2.
